@@ -257,7 +257,10 @@ impl World {
         match op {
             0 => {
                 let level = 1 + self.rng.usize(5);
-                let cs = match self.fresh.take(level, self.rng.usize(4), Kind::Span) {
+                // a third of the macro spans go through the macro's explicit-parent arm
+                let root = self.rng.chance(1, 3);
+                let tgt = self.rng.usize(4);
+                let cs = match if root { self.fresh.take_root_span(level, tgt) } else { self.fresh.take(level, tgt, Kind::Span) } {
                     Some(c) => c,
                     None => return,
                 };
@@ -266,15 +269,16 @@ impl World {
                     _ => unreachable!(),
                 };
                 let accepted = dflt.map(|d| level <= self.protos[d].thresh).unwrap_or(false);
-                self.trace.push(format!("[{t}] h{} = span!({}) under default {:?}", self.handles.len(), vcs::LEVEL_NAMES[level], dflt.map(|d| d + 1)));
-                self.sig("new_macro", if accepted { dflt } else { None }, accepted, depth);
+                let want_parent = if root { Parent::Root } else { Parent::Contextual };
+                self.trace.push(format!("[{t}] h{} = span!({}{}) under default {:?}", self.handles.len(), if root { "parent: None, " } else { "" }, vcs::LEVEL_NAMES[level], dflt.map(|d| d + 1)));
+                self.sig(if root { "new_macro_root" } else { "new_macro" }, if accepted { dflt } else { None }, accepted, depth);
                 if accepted {
                     let got = self.expect(dflt, &[Call::New { id: 0, parent: Parent::Contextual }][..0]);
-                    // exactly one New with contextual parent
+                    // exactly one New with the parent the macro form names
                     let id = match got.as_slice() {
-                        [Call::New { id, parent: Parent::Contextual }] => Some(*id),
+                        [Call::New { id, parent }] if *parent == want_parent => Some(*id),
                         other => {
-                            self.err(format!("span! under an accepting collector produced {other:?}, expected exactly one new_span(contextual)"));
+                            self.err(format!("span! under an accepting collector produced {other:?}, expected exactly one new_span({want_parent:?})"));
                             None
                         }
                     };
